@@ -145,6 +145,13 @@ fn main() {
       check.require_class("E1:same_key_other_container_on_path", if q { 100 } else { 5_000 });
       check.require_class("E4:>=2_threads_inside_first_resolution", if q { 200 } else { 10_000 });
       check.require_class("E4:registrations_during_resolution", if q { 200 } else { 10_000 });
+      check.require_class("E1:confusable_name_registered", if q { 8_000 } else { 400_000 });
+      check.require_class("E1:confusable_pair_both_registered", if q { 2_000 } else { 100_000 });
+      check.require_class("E1:confusable_pair:local", if q { 300 } else { 15_000 });
+      check.require_class("E1:name:empty", if q { 1_000 } else { 50_000 });
+      check.require_class("E5:resolution_ended_during_a_re_registration", if q { 300 } else { 15_000 });
+      check.require_class("E5:resolution_inside_teardown_of_replaced_registration", if q { 100 } else { 5_000 });
+      check.require_class("E5:key:concrete:confusable_name", if q { 40 } else { 2_000 });
       // cross-thread cycles: executed = passed + excluded by the open finding
       let x_done = check.stats.classes.get("E4x").copied().unwrap_or(0) + check.stats.excluded.get("iocx-F2-cross-thread-cycle-deadlocks").copied().unwrap_or(0);
       if x_done < x_cases / 2 {
@@ -157,16 +164,17 @@ fn main() {
       let mut extra = std::collections::BTreeMap::new();
       extra.insert(
         "level_note".to_string(),
-        serde_json::json!("E1 is exact (single thread, one correct outcome per step). E4 runs real threads on this machine's scheduler: each program is one sample of its interleavings; replays of E4 cases are statistical. E4x decides 'hang' from positive evidence in a child process (all resolver threads parked, context-switch counters frozen); otherwise inconclusive."),
+        serde_json::json!("E1 is exact (single thread, one correct outcome per step). E4 runs real threads on this machine's scheduler: each program is one sample of its interleavings; replays of E4 cases are statistical. E4x decides 'hang' from positive evidence in a child process (all resolver threads parked, context-switch counters frozen); otherwise inconclusive. E5 runs real threads too; with the drop gate (class E5:gate:drop_waits_for_a_resolution) a resolution provably lies inside the teardown of the replaced registration, otherwise the overlap is sampled."),
       );
       check.finish(EvidenceMeta {
         level: "exploration",
-        rule: "proptest-generated cases of three engines. E1: sequential registration/resolution histories over 8 types x 3 names x {global|instance, instance, local} containers, followed by a sweep resolving every key. E4: T in 2..=16 barrier-released threads resolving a freshly registered key while a registrar thread registers other keys. E4x: a dependency ring entered by >= 2 threads at once. A case is non-trivial when a key was re-registered and then resolved, or a factory that resolves another service ran, or >= 2 threads were inside a first resolution of the same singleton (measured by counters inside the factory). distinct = hash of the scenario".into(),
-        engine: "E1 sequential model-based histories + E4 real-thread programs + E4x cross-thread cycles in child processes (proptest)".into(),
+        rule: "proptest-generated cases of four engines. E1: sequential registration/resolution histories over 8 types x 16 names (None, \"a\", \"b\" and 13 confusable names: empty, case, whitespace, NUL, unicode normalisation, a type's name, long names differing in the last character, \"None\") x {global|instance, instance, local} containers, followed by a sweep resolving every one of the 384 keys. E4: T in 2..=16 barrier-released threads resolving a freshly registered key while a registrar thread registers other keys. E4x: a dependency ring entered by >= 2 threads at once. E5: 1-2 writer threads re-registering one continuously registered key (all registration forms) while 1-6 reader threads resolve it and two bystander keys, rounds sequenced by atomics. A case is non-trivial when a key was re-registered and then resolved, or a factory that resolves another service ran, or >= 2 threads were inside a first resolution of the same singleton (measured by counters inside the factory), or (E5) a reader resolution ended while a re-registration of the key was in progress (measured). distinct = hash of the scenario".into(),
+        engine: "E1 sequential model-based histories + E4 real-thread programs + E4x cross-thread cycles in child processes + E5 concurrent re-registration programs (proptest)".into(),
         assumptions: vec![
           "E1: factories only resolve (they never register), as in the property's quantifier".into(),
           "E4/E4x: real scheduler of this machine (x86-64); interleavings are sampled, not enumerated".into(),
-          "E4: only other keys are registered while a key is being resolved".into(),
+          "E4: only other keys are registered while a key is being resolved; E5: the resolved key itself is re-registered, never unregistered (the API has no removal)".into(),
+          "E5: while a writer queues for the map's write lock the readers idle longer between resolutions (dashmap's shard lock prefers readers; liveness of registration is not part of the property)".into(),
         ],
         extra,
       });
